@@ -2916,3 +2916,174 @@ func runKnownPrefixWholeValue(rr *RuleRun) {
 		rr.Violation(key, cut.Pos(), fmt.Sprintf("the known string is cut down to %s, a length derived from the new prefix, before it is compared with it, and the two lengths are never compared: a prefix longer than the known string (\"foo-bar\" for the value \"foo\") agrees on the overlap and is accepted although it contradicts the value", exprStr(cut)))
 	}
 }
+
+// ---------------------------------------------------------------------------
+// C01.stored-count-is-not-length
+
+func init() {
+	register(&Rule{
+		ID: "C01.stored-count-is-not-length", Prop: "C01", Also: []string{"C05", "C12"}, Floor: 4, Controls: 0,
+		Doc: "in package cty, LengthInt() — the number of members physically stored — is taken as the length of a value only where the branch conditions exclude a set (a kind test of the value's type decided accordingly) or establish that the value is wholly known: a set holding unknown members may coalesce, so its stored count is only an upper bound of its length, and a definite answer or a lower bound derived from it can be wrong",
+		Run: runStoredCountIsNotLength,
+	})
+}
+
+func runStoredCountIsNotLength(rr *RuleRun) {
+	c := rr.Ctx
+	info := c.Info("cty")
+	for _, fd := range c.SortedDecls("cty") {
+		if declName(fd) == "Value.LengthInt" {
+			continue
+		}
+		var calls []*ast.CallExpr
+		inspectNoLit(fd.Body, func(n ast.Node) bool {
+			if call, ok := n.(*ast.CallExpr); ok && isCall(info, call, "cty.Value.LengthInt") {
+				calls = append(calls, call)
+			}
+			return true
+		})
+		if len(calls) == 0 {
+			continue
+		}
+		cf := c.CondFacts(fd.Body, info, nil)
+		for _, call := range calls {
+			subj := call.Fun.(*ast.SelectorExpr).X
+			so := rootObj(info, subj)
+			key := fmt.Sprintf("cty.%s/%s", declName(fd), exprStr(call))
+			if so == nil {
+				rr.Assumed(key, call.Pos(), "the subject is not a variable")
+				continue
+			}
+			if !countDecidesSomething(c, info, fd, call) {
+				rr.OKTrivial(key, call.Pos(), "the count only sizes an allocation or bounds a loop")
+				continue
+			}
+			// type aliases: ty := val.Type()
+			tyOf := map[types.Object]bool{}
+			inspectNoLit(fd.Body, func(n ast.Node) bool {
+				if as, ok := n.(*ast.AssignStmt); ok && len(as.Lhs) == len(as.Rhs) {
+					for i, r := range as.Rhs {
+						if tc, ok := ast.Unparen(r).(*ast.CallExpr); ok && isCall(info, tc, "cty.Value.Type") && rootObj(info, tc) == so {
+							if o := objOf(info, as.Lhs[i]); o != nil {
+								tyOf[o] = true
+							}
+						}
+						if se, ok := ast.Unparen(r).(*ast.SelectorExpr); ok && se.Sel.Name == "ty" && rootObj(info, se) == so {
+							if o := objOf(info, as.Lhs[i]); o != nil {
+								tyOf[o] = true
+							}
+						}
+					}
+				}
+				return true
+			})
+			aboutSubjType := func(e ast.Expr) bool { // val.Type(), val.ty, ty (alias)
+				r := rootObj(info, e)
+				return r == so || tyOf[r]
+			}
+			ok := cf.HoldsAt(call, func(cond ast.Expr, truth bool) bool {
+				cc, isCall_ := ast.Unparen(cond).(*ast.CallExpr)
+				if !isCall_ {
+					return false
+				}
+				se, isSel := cc.Fun.(*ast.SelectorExpr)
+				if !isSel {
+					return false
+				}
+				switch se.Sel.Name {
+				case "IsWhollyKnown":
+					return truth && rootObj(info, se.X) == so
+				case "IsSetType":
+					return !truth && aboutSubjType(se.X)
+				case "IsListType", "IsMapType", "IsTupleType", "IsObjectType":
+					return truth && aboutSubjType(se.X)
+				}
+				return false
+			})
+			if ok {
+				rr.OK(key, call.Pos(), "not a set, or wholly known, on every path to the call")
+			} else {
+				rr.Violation(key, call.Pos(), fmt.Sprintf("the stored member count of %s is used on a path that neither excludes a set nor establishes that the value is wholly known: for a set with unknown members the count is only an upper bound (unknown members may turn out equal to others), so a definite length, a lower bound or a definite 'not included' derived from it can be wrong", exprStr(subj)))
+			}
+		}
+	}
+}
+
+
+// countDecidesSomething: the LengthInt result (directly or through the variable it is assigned to) is
+// compared, becomes a cty number, or becomes a length bound of a refinement / range.
+func countDecidesSomething(c *Ctx, info *types.Info, fd *ast.FuncDecl, call *ast.CallExpr) bool {
+	deciding := func(e ast.Expr) bool {
+		var child ast.Node = e
+		for p := c.Parent(e); p != nil; child, p = p, c.Parent(p) {
+			switch x := p.(type) {
+			case *ast.ParenExpr:
+				continue
+			case *ast.BinaryExpr:
+				switch x.Op {
+				case token.EQL, token.NEQ, token.LSS, token.GTR, token.LEQ, token.GEQ:
+					// an emptiness test (compared with the constant 0) is exact for every kind
+					other := x.X
+					if ast.Node(x.X) == child {
+						other = x.Y
+					}
+					if v, ok := constInt(info, other); ok && v == 0 {
+						return false
+					}
+					return true
+				}
+				continue // arithmetic on the count
+			case *ast.CallExpr:
+				if tv, ok := info.Types[x.Fun]; ok && tv.IsType() {
+					continue // conversion int64(n)
+				}
+				if isBuiltin(info, x, "make") {
+					return false
+				}
+				switch funcKey(callee(info, x)) {
+				case "cty.NumberIntVal", "cty.NumberUIntVal", "cty.NumberVal", "cty.NumberFloatVal",
+					"cty.RefinementBuilder.CollectionLength", "cty.RefinementBuilder.CollectionLengthLowerBound", "cty.RefinementBuilder.CollectionLengthUpperBound":
+					return true
+				}
+				return false
+			case *ast.KeyValueExpr:
+				if id, ok := x.Key.(*ast.Ident); ok && (id.Name == "minLen" || id.Name == "maxLen") && x.Value == child {
+					return true
+				}
+				return false
+			case *ast.ReturnStmt:
+				return true
+			default:
+				return false
+			}
+		}
+		return false
+	}
+	if deciding(call) {
+		return true
+	}
+	// assigned to a variable: look at the variable's uses
+	as, ok := c.Parent(call).(*ast.AssignStmt)
+	if !ok {
+		if ce, isConv := c.Parent(call).(*ast.CallExpr); isConv {
+			as, ok = c.Parent(ce).(*ast.AssignStmt)
+		}
+		if !ok {
+			return false
+		}
+	}
+	res := false
+	for _, l := range as.Lhs {
+		o := objOf(info, l)
+		if o == nil {
+			continue
+		}
+		inspectNoLit(fd.Body, func(n ast.Node) bool {
+			if id, ok := n.(*ast.Ident); ok && info.Uses[id] == o && deciding(id) {
+				res = true
+			}
+			return true
+		})
+	}
+	return res
+}
